@@ -175,19 +175,24 @@ func scenarios(tier string) []*vsched.Scenario {
 	}
 	if tier != "thorough" {
 		// quick: single-submitter scripts under pre-emption bound 1, two-submitter scripts under delay bound 2
-		for _, c := range []scenlib.PoolCfg{cfgs[0], cfgs[1], cfgs[3]} {
+		for ci, c := range []scenlib.PoolCfg{cfgs[0], cfgs[1], cfgs[3]} {
+			heavy := ci == 2 // two workers + overflow of 2: the three-job scripts go under delay bounding in the quick tier
 			for _, si := range []int{0, 1, 2, 3, 5} {
+				if heavy && si >= 3 {
+					out = append(out, poolScenario(c, scripts[si], false, 2, true))
+					continue
+				}
 				out = append(out, poolScenario(c, scripts[si], false, 1, false))
 			}
 			out = append(out, poolScenario(c, scripts[6], false, 2, true), poolScenario(c, scripts[7], false, 2, true))
-			out = append(out, poolScenario(c, scripts[1], true, 1, false), poolScenario(c, scripts[6], true, 2, true))
+			out = append(out, poolScenario(c, scripts[1], true, 1, heavy), poolScenario(c, scripts[6], true, 2, true))
 		}
 		out = append(out, poolScenario(cfgs[2], scripts[2], false, 1, false), poolScenario(cfgs[2], scripts[4], false, 2, true))
 		// jobs that take virtual time (the spawn loop is idle again when they end / panic); PreAllocWorkerSize racing the spawn loop
 		out = append(out,
 			poolScenario(cfgs[0], [][]jobSpec{{js("timed-panic", S), js("plain", S)}}, false, 1, false),
 			poolScenario(cfgs[1], [][]jobSpec{{js("timed", S), js("timed-panic", S), js("plain", T)}}, false, 1, false),
-			poolScenario(cfgs[3], [][]jobSpec{{js("timed-panic", S), js("timed", S), js("plain", S)}}, false, 1, false),
+			poolScenario(cfgs[3], [][]jobSpec{{js("timed-panic", S), js("timed", S), js("plain", S)}}, false, 2, true),
 			poolScenarioP(scenlib.PoolCfg{Cap: 2, Buf: 0, Max: 1, StandBy: 0, Batch: 1}, [][]jobSpec{{js("timed", S), js("timed", S)}}, false, 1, 1, false))
 		return out
 	}
